@@ -149,10 +149,10 @@ def parse_cbmc_json(path):
 
 
 def classify(prop_name, desc):
-    if ".unwind." in prop_name or "unwinding assertion" in desc:
-        return "unwind"
     if ".recursion" in prop_name or "recursion unwinding" in desc:
         return "recursion"
+    if ".unwind." in prop_name or "unwinding assertion" in desc:
+        return "unwind"
     if ".no-body." in prop_name:
         return "no-body"
     return "check"
@@ -406,7 +406,7 @@ class Runner:
         srcs.append(os.path.join(VERIF, "lib/replay_rt.c"))
         # keep copies of the harness-side sources with the replay (repo sources are referenced)
         cmd = ["gcc", "-std=gnu11", "-g", "-O0", "-fsanitize=address,undefined",
-               "-fno-sanitize-recover=undefined", "-fno-omit-frame-pointer", "-w",
+               "-fno-sanitize-recover=undefined", "-fno-sanitize=alignment", "-fno-omit-frame-pointer", "-w",
                "-DVERIF_REPLAY"] + inc_flags(["-I" + d]) + BASE_DEFS + ["-D" + x for x in h.defines] + \
             [c for c in h.cflags] + list(h.replay_cflags) + srcs + ["-o", os.path.join(outdir, "replay.bin"), "-lm", "-lpthread"]
         sh = os.path.join(outdir, "run.sh")
